@@ -1,4 +1,78 @@
-/- dsmodel_wire_misc: wire-format model driver stub (filled in when the family group is built). -/
-def main (_args : List String) : IO UInt32 := do
-  IO.eprintln "dsmodel_wire_misc: not built yet"
-  return 2
+/- dsmodel_wire_misc: specification readers of the t-digest / Bloom filter / density sketch images.
+   `IMG <kind> <hex>`  -> `DEC <project> | reenc=<0|1> size=<n> minpfx=<n> fmt=<main|leg1|leg2>`  or `DEC reject`
+   `ENCLEG big|small <hex fields…>` -> `HEX <image>` (the Lean encoders of the two big-endian t-digest reference formats) -/
+import DSModel.Wire.BloomGen
+import DSModel.Wire.DensityGen
+import DSModel.Wire.TDigestGen
+import DSModel.Wire.TDigestApi
+import DSModel.DriverLoop
+import DSModel.Util
+open DS DS.Wire
+
+/-- smallest prefix length the reader accepts (none if even the whole input is rejected).
+Images up to 2048 bytes: every prefix length is tried.  Larger images: bisection (acceptance is monotone in the
+prefix length by `PS`), then the answer is re-checked against its predecessor and 64 evenly spaced shorter prefixes. -/
+def minPrefix {α : Type} (rd : Reader α) (b : Bytes) : Option Nat :=
+  let acc := fun n => (rd (b.take n)).isSome
+  if b.length ≤ 2048 then (List.range (b.length + 1)).find? acc
+  else if !acc b.length then none
+  else Id.run do
+    let mut lo := 0            -- invariant: every probed length < lo was rejected, hi is accepted
+    let mut hi := b.length
+    for _ in [0:64] do
+      if lo < hi then
+        let mid := (lo + hi) / 2
+        if acc mid then hi := mid else lo := mid + 1
+    let ok := (hi == 0 || !acc (hi - 1)) && (List.range 64).all fun i => !acc (i * hi / 64) || i * hi / 64 == hi
+    return if ok then some hi else some 0
+
+def report {α : Type} (rd : Reader α) (enc : α → Bytes) (proj : α → String) (size : α → Nat) (fmt : String) (b : Bytes) : String :=
+  match rd b with
+  | none => "DEC reject"
+  | some (s, _) =>
+    let mp := match minPrefix rd b with | some n => toString n | none => "none"
+    s!"DEC {proj s} | reenc={boolStr (enc s == b)} size={size s} minpfx={mp} fmt={fmt}"
+
+def tdReport (o : TDigest.TOps) (wsz : Nat) (b : Bytes) : String :=
+  let c := TDigest.genConsts
+  match TDigest.decodeLegacy c b with
+  | some (l, _) =>
+    let fmt := match l with | .big .. => "leg1" | .small .. => "leg2"
+    report (TDigest.decodeLegacy c) (TDigest.encodeLegacy c) (TDigest.projectLegacy o) TDigest.legacySize fmt b
+  | none =>
+    report (TDigest.decode c o.tsz wsz) (TDigest.encode c o.tsz wsz) (TDigest.project o) (TDigest.serializedSize o.tsz wsz) "main" b
+
+def pairs : List Nat → Option (List (Nat × Nat))
+  | [] => some []
+  | a :: b :: t => (pairs t).map fun r => (a, b) :: r
+  | _ => none
+
+def step (_ : Unit) (w : List String) : Unit × String :=
+  ((), match w with
+  | ["IMG", kind, hex] =>
+    match parseHexBytes hex with
+    | none => "bad-hex"
+    | some ba =>
+      let b := ba.toList
+      match kind with
+      | "bloom" => report (Bloom.decode Bloom.genConsts) (Bloom.encode Bloom.genConsts) (Bloom.project Bloom.genConsts) Bloom.serializedSize "main" b
+      | "td.d" => tdReport TDigest.opsD TDigest.genWszDouble b
+      | "td.f" => tdReport TDigest.opsF TDigest.genWszFloat b
+      | "den.d" => report (Density.decode Density.genConsts 8) (Density.encode Density.genConsts 8) (Density.project 8) (Density.serializedSize 8) "main" b
+      | "den.f" => report (Density.decode Density.genConsts 4) (Density.encode Density.genConsts 4) (Density.project 4) (Density.serializedSize 4) "main" b
+      | _ => "bad-kind"
+  | "ENCLEG" :: "big" :: mn :: mx :: comp :: rest =>
+    match parseHex mn, parseHex mx, parseHex comp, (rest.mapM parseHex).bind pairs with
+    | some mn, some mx, some comp, some cs =>
+      let l := TDigest.Legacy.big mn mx comp cs
+      if decide (TDigest.WFLegacy l) then "HEX " ++ listBytesHex (TDigest.encodeLegacy TDigest.genConsts l) else "bad-range"
+    | _, _, _, _ => "bad-op"
+  | "ENCLEG" :: "small" :: mn :: mx :: comp :: c1 :: c2 :: rest =>
+    match parseHex mn, parseHex mx, parseHex comp, parseHex c1, parseHex c2, (rest.mapM parseHex).bind pairs with
+    | some mn, some mx, some comp, some c1, some c2, some cs =>
+      let l := TDigest.Legacy.small mn mx comp c1 c2 cs
+      if decide (TDigest.WFLegacy l) then "HEX " ++ listBytesHex (TDigest.encodeLegacy TDigest.genConsts l) else "bad-range"
+    | _, _, _, _, _, _ => "bad-op"
+  | _ => "bad-op")
+
+def main (_args : List String) : IO UInt32 := runDriver () step
